@@ -84,6 +84,7 @@ def check(ctx):
     pts = sorted(pts)
     cells = 0
     bad = None
+    cant = None
     for lo in pts:
         for hi in pts:
             if hi < lo:
@@ -94,7 +95,8 @@ def check(ctx):
             try:
                 _r, out = evalexpr.run_function(f, env)
             except evalexpr.Unsupported as e:
-                raise AnalysisError('cannot interpret %s: %s' % (Model.qual(f), e))
+                cant = cant or str(e)
+                continue
             got_len, got_fmt = out.get('self.length'), out.get('self.fmt')
             want_len, want_signed = oracle_width(lo, hi)
             ok = got_len == want_len
@@ -107,7 +109,9 @@ def check(ctx):
             if not ok and bad is None:
                 bad = (lo, hi, got_len, got_fmt, want_len, want_signed, out.get('self.signed'))
     ctx.extra['integer_width_cells'] = cells
-    ctx.instance('C06.R1', 'oer.Integer.set_restricted_to_range on %d (minimum, maximum) cells' % cells, 'ok' if bad is None else 'VIOLATION', node=f, file=OER)
+    ctx.instance('C06.R1', 'oer.Integer.set_restricted_to_range on %d (minimum, maximum) cells' % cells,
+                 ('ok' if cant is None else 'undecided') if bad is None else 'VIOLATION', ('the width selection is not in a shape the evaluator follows: %s' % cant) if cant else '',
+                 nontrivial=cant is None, node=f, file=OER)
     if bad is not None:
         ctx.violation('C06.R1', OER, f, Model.qual(f),
                       'for INTEGER (%d..%d) the codec selects length=%s fmt=%s signed=%s; X.696 10 prescribes %s' %
@@ -116,7 +120,11 @@ def check(ctx):
     for extra in ({'has_extension_marker': True}, {'minimum': 'MIN'}, {'maximum': 'MAX'}):
         env = {'minimum': 0, 'maximum': 10, 'has_extension_marker': False, 'self.length': None, 'self.fmt': None, 'self.signed': True, 'self.has_extension_marker': False}
         env.update(extra)
-        _r, out = evalexpr.run_function(f, env)
+        try:
+            _r, out = evalexpr.run_function(f, env)
+        except evalexpr.Unsupported as e:
+            ctx.instance('C06.R1', 'variable length under %s' % extra, 'undecided', str(e), nontrivial=False, node=f, file=OER)
+            continue
         ok = out.get('self.length') is None and out.get('self.fmt') is None
         ctx.instance('C06.R1', 'variable length under %s' % extra, 'ok' if ok else 'VIOLATION', node=f, file=OER)
         if not ok:
